@@ -28,9 +28,11 @@ func defGenMethod(args slip.List, p *slip.Printer) Node {
 	}
 	dm.sll = argsFromList(args[0], p)
 	args = args[1:]
-	if ss, ok := args[0].(slip.String); ok {
-		dm.doc = &Doc{text: string(ss), nl: true}
-		args = args[1:]
+	if 0 < len(args) { // a method may have no forms at all
+		if ss, ok := args[0].(slip.String); ok {
+			dm.doc = &Doc{text: string(ss), nl: true}
+			args = args[1:]
+		}
 	}
 	for _, v := range args {
 		dm.children = append(dm.children, buildNode(v, p))
